@@ -103,7 +103,7 @@ static int noted(int k)
 {
 	int j, n = 0;
 	if (use_sigfd) { struct vp_sigfd *f = vp_sigfd_for_sig(k); return (f && f->pending[k]) ? 1 : 0; }
-	for (j = 0; j < VP_PIPE_CAP; j++) if (j < vp_pipe_n && vp_pipe_q[j] == (k ? B : A)) n++;
+	(void)j; n = vp_sig_undrained[k];   /* counted by the model when the pipe accepted the handler's write -- not by looking at the byte values */
 	return n;
 }
 static void raise_sig(int sig)
